@@ -12,6 +12,7 @@ use std::time::Duration;
 
 use crate::make_constraints_map_from_assignment;
 use crate::math::{Comparison, OptimizationType, VariableType};
+use crate::solvers::common::constant_rows_hold;
 use crate::solvers::{Assignment, LpSolution, SolutionStatus, SolverError};
 use crate::transformers::LinearModel;
 #[cfg(any(feature = "clarabel", feature = "highs"))]
@@ -110,6 +111,21 @@ where
             lp.objective().len(),
             variables.len()
         )));
+    }
+
+    if variables.is_empty() {
+        // Without variables every row is a constant comparison `0 <op> rhs` and the
+        // objective is its constant offset: decide the model here, some back-ends
+        // (Clarabel) cannot factorise an empty system.
+        if !constant_rows_hold(lp) {
+            return Err(SolverError::Infeasible);
+        }
+        let values = Vec::new();
+        return Ok(LpSolution::new(
+            vec![],
+            lp.calc_objective(&values),
+            make_constraints_map_from_assignment(lp, &values),
+        ));
     }
 
     let mut problem_variables = ProblemVariables::new();
